@@ -28,7 +28,12 @@ Parts
          catalogue entries x ordered pairs of sizes (same / different / same total, other shape) x entry point per step
          (catalogue generator, Database.generate_draws on a Database kept through the history) x the caller's in-place
          post-processing of the answer it received (none, multiply by 0, reshape in place to 1-D); the same request
-         repeated 3 (4) times; two variables in one generate_draws call.  Every answer of every step is checked against
+         repeated 3 (4) times; two variables in one generate_draws call; bind: k = 2 (all ordered pairs of entries) and
+         k = 3 (quick: ordered triples of a menu of 7 entries, thorough: all 21^3) variables of ONE request x every order of
+         the list of names x every insertion order of the dictionary of types x an additional dictionary entry that is
+         not asked for (none / inserted first / last), through Database.generate_draws and through the library's own
+         caller (a formula of bioDraws terms handed to IdManager, which sorts the names): the slice of every variable
+         must hold the draws of the type requested for THAT variable.  Every answer of every step is checked against
          every clause of part gen.  Each hist task runs in a worker process of its own, so that the process history
          of a case is exactly the task's histories before it (recorded in the case; replay re-executes them).
 """
@@ -48,7 +53,8 @@ ID = 'C11'
 LEVEL = 'exploration'
 TECHNIQUE = ('bounded exhaustive enumeration of catalogue entries x sizes x owned RNG answers (uniform tapes, all/'
              'family of shuffle permutations), of all request histories of depth 2 (3) over the catalogue x sizes x entry '
-             'points x in-place caller actions in one process, and of an exhaustive grid of uniform inputs for the quantile transform, '
+             'points x in-place caller actions in one process, of all requests of 2 (3) variables x orders of the names x '
+             'insertion orders of the dictionary of types x entry points (Database.generate_draws, IdManager), and of an exhaustive grid of uniform inputs for the quantile transform, '
              'executed on the real generators and compared with an independent reference (exact radical inverse, '
              'strata, mirrors, certified erf/erfc Newton quantile)')
 RULE = ('gen: one case per (catalogue entry, N, R, uniform tape, shuffle answer); N x R from the tier\'s size grid '
@@ -76,7 +82,18 @@ RULE = ('gen: one case per (catalogue entry, N, R, uniform tape, shuffle answer)
         '(3 for gen, {nothing, multiply by 0} for db); rep: every entry x size x entry point x caller action, the same '
         'request 3 (thorough 4) times; multi: all ordered pairs of entries as two variables of ONE generate_draws call x '
         'sizes; h3 (thorough): all ordered triples of entries x sizes (s,s,s), (s,s\',s) x {gen, db} x caller action after '
-        'every step in {nothing, reshape} (gen) / {nothing, multiply by 0} (db). Every answer is checked with all the '
+        'every step in {nothing, reshape} (gen) / {nothing, multiply by 0} (db); bind: one case per (ordered k-tuple of '
+        'entries, size, entry point, order of the list of names = one of the k! assignments of the seed\'s k variable '
+        'names to the entries, insertion order of the dictionary of types = one of k!, additional dictionary entry not asked '
+        'for in {none, first, last}); k = 2: all 21 x 21 pairs x the tier\'s hist sizes; k = 3: triples of the menu '
+        '{UNIFORM, UNIFORM_ANTI, UNIFORM_HALTON2, UNIFORMSYM_HALTON3, UNIFORMSYM_MLHS, NORMAL_HALTON5, NORMAL_MLHS_ANTI} '
+        'at (2,2) (thorough: (3,4), (2,6)) and, thorough only, all 21^3 triples at (2,2); entry points Database.'
+        'generate_draws (k! x k! x 3 cases) and IdManager([sum of bioDraws(name, type)], database, R) (k! cases: the '
+        'library orders the names itself, the slice of a variable is the one at IdManager.draws.indices[name]); all '
+        'requests of a task go to one Database per sample size; the slice of every variable must be what its entry '
+        'delivers when asked alone under the same continuing RNG answers, for some order (of the k!) in which the '
+        'generators consumed them (finding keys C11|history|db-path-variable-binding|..., C11|history|db-path-several-'
+        'variables|...). Every answer is checked with all the '
         'clauses of part gen (finding keys C11|history|<clause>|type=<entry>); distinct = distinct history prefix.')
 ASSUMPTIONS = [
     'biogeme.draws obtains randomness only through numpy.random.uniform and numpy.random.shuffle looked up on the '
@@ -95,6 +112,13 @@ ASSUMPTIONS = [
     'not reset between tasks',
     'two variables in one generate_draws call are compared with the two entries asked alone under one continuing '
     'tape (the clauses themselves are evaluated on single requests)',
+    'part bind: at most 3 variables in one request, variable names from the seed\'s set of 3 (+1) names; a BiogemeError '
+    'for a dictionary of types that holds an entry which is not in the list of names is counted as a refusal '
+    '(bind_superset_dictionary_refused), any other exception is a violation; the order in which generate_draws lets '
+    'the generators consume the RNG is not prescribed (all k! orders are accepted, bind_generators_called_in_another_'
+    'order counts the cases that needed another order than that of the slices); the numbering of the variables by '
+    'IdManager is taken as delivered (IdManager.draws.indices), not checked here; IdManager is exercised without the '
+    'engine (no formula is evaluated)',
     'a Latin-hypercube case in which a point lies within 1e-9 (in stratum units) of a stratum boundary is skipped and '
     'counted (skipped_fragile_stratum_boundary; arises only for the tape that contains 1e-12 and 1-1e-12)',
 ]
@@ -968,6 +992,30 @@ def hist_iter(task, cat):
                             yield ('steps', [dict(type=a, N=sa[0], R=sa[1], via=via, mut=mut),
                                              dict(type=b, N=sb[0], R=sb[1], via=via, mut=mut),
                                              dict(type=c, N=sa[0], R=sa[1], via=via, mut='none')])
+    elif kind == 'bind':
+        # k variables of ONE request: every ordered k-tuple of entries (of the task's menu) x sizes x entry point x
+        # every order of the list of names x every insertion order of the dictionary of types x an additional
+        # dictionary entry that is not asked for (see _hist_bind)
+        k = task['k']
+        menu = task.get('menu') or names
+        tuples = list(itertools.product(menu, repeat=k))[sh_i::sh_k]
+        orders = [list(p) for p in itertools.permutations(range(k))]
+        for types in tuples:
+            for s in S:
+                if not all(ok_size(a, s) for a in types):
+                    yield ('skip',)
+                    continue
+                for via in task['vias']:
+                    for norder in orders:
+                        if via == 'idm':
+                            # the library orders the names itself; the formula is traversed in the order of `types`
+                            yield ('bind', dict(types=list(types), N=s[0], R=s[1], via=via, names=norder,
+                                                dict=list(range(k)), extra=None))
+                            continue
+                        for dorder in orders:
+                            for extra in task['extras']:
+                                yield ('bind', dict(types=list(types), N=s[0], R=s[1], via=via, names=norder,
+                                                    dict=dorder, extra=extra))
     else:
         raise KeyError(kind)
 
@@ -975,6 +1023,7 @@ def hist_iter(task, cat):
 def _part_hist(task, rec, stop_after=None):
     cat = catalogue()
     hindex = 0
+    state = {}
     for item in hist_iter(task, cat):
         if item[0] == 'skip':
             rec.count('skipped_out_of_domain_odd_R_antithetic')
@@ -983,6 +1032,8 @@ def _part_hist(task, rec, stop_after=None):
             break
         if item[0] == 'steps':
             run_history(rec, cat, item[1], task, hindex)
+        elif item[0] == 'bind':
+            _hist_bind(rec, cat, item[1], task, hindex, state)
         else:
             _hist_multi(rec, cat, item[1], item[2], item[3], item[4], task, hindex)
         rec.count('histories')
@@ -990,6 +1041,180 @@ def _part_hist(task, rec, stop_after=None):
     if hindex and task['shard'][0] == 0:
         rec.sample(dict(part='hist', kind=task['kind'], histories_in_this_task=hindex,
                         last=item[1] if item[0] == 'steps' else list(item[1:])))
+
+
+# Names of the draw variables of part bind (by seed): three names and one additional name whose dictionary entry is
+# not asked for.  Python's string order of the names (the order the library's IdManager uses) is in general neither the
+# order of the list of names nor the insertion order of the dictionary: both are enumerated.
+_BIND_NAMES = [
+    (['alpha', 'mid', 'zeta'], 'beta'), (['b1', 'b10', 'b2'], 'b11'), (['Z', '_k', 'a'], 'Za'),
+    (['x_1', 'x_10', 'x_2'], 'x_0'), (['B', 'a', 'c'], 'b'), (['draw3', 'drawA', 'draw_1'], 'draw'),
+    (['xi', 'Xi', 'eta'], 'nu'), (['r2', 'r1', 'r0'], 'r3'),
+]
+BIND_MENU = ['UNIFORM', 'UNIFORM_ANTI', 'UNIFORM_HALTON2', 'UNIFORMSYM_HALTON3', 'UNIFORMSYM_MLHS', 'NORMAL_HALTON5',
+             'NORMAL_MLHS_ANTI']
+
+
+def bind_names():
+    base, extra = _BIND_NAMES[_SEED % len(_BIND_NAMES)]
+    return sorted(base), extra
+
+
+def _hist_bind(rec, cat, b, task, hindex, state):
+    """k variables in ONE request: whatever the order of the list of names, the insertion order of the dictionary of
+    types and the alphabetical order of the names are, the slice of every variable must hold the draws of the type
+    requested FOR THAT VARIABLE.
+
+    b = dict(types=[t_0..t_k-1], N, R, via, names=<order>, dict=<order>, extra)
+      via 'db'   Database.generate_draws(types_dict, names_list, R): position j of names_list is the variable
+                 BASE[names[j]] of type types[j]; the dictionary is filled in the order dict[0], dict[1], ... (positions
+                 of names_list); extra in {None, 'first', 'last'}: one more dictionary entry, of a variable that is not
+                 in names_list, inserted before / after the others.
+      via 'idm'  the formula bioDraws(BASE[names[0]], types[0]) + bioDraws(BASE[names[1]], types[1]) + ... handed to
+                 biogeme.expressions.idmanager.IdManager, which asks the Database itself; the slice of a variable is
+                 the one at the index IdManager assigned to it (IdManager.draws.indices).
+    One Database per sample size is kept through the task (a history of requests on one object).
+    Oracle: the table has shape (N, R, k) and there is an order in which the k generators consumed the owned RNG
+    (the order of the slices first, then the other k!-1) such that every slice is exactly what its entry delivers when
+    asked alone in that order under the same continuing RNG answers."""
+    import numpy as np
+    import pandas as pd
+    import biogeme.database as db
+    from biogeme.exceptions import BiogemeError
+    types, n, r, via = list(b['types']), b['N'], b['R'], b['via']
+    k = len(types)
+    base, extra_name = bind_names()
+    vnames = [base[i] for i in b['names']]                 # names list position j -> variable name
+    tid, perm = HTAPES[hindex % len(HTAPES)], HPERMS[(hindex + 1) % len(HPERMS)]
+    case = dict(part='hist', task=task, hindex=hindex, pos=0, bind=b)
+    key = ('bind', via, tuple(types), tuple(b['names']), tuple(b['dict']), b['extra'], n, r)
+    dbs = state.setdefault('dbs', {})
+    if n not in dbs:
+        dbs[n] = db.Database(f'c11b{n}', pd.DataFrame({'x': [float(i + 1) for i in range(n)]}))
+    d = dbs[n]
+    before = f' [{hindex} other requests of this task ran earlier in the process, on the same Database]' if hindex else ''
+    type_of = dict(zip(vnames, types))
+    tape = Tape(tid, perm)
+    t = e = None
+    if via == 'db':
+        dct = {}
+        if b['extra'] == 'first':
+            dct[extra_name] = list(cat)[(list(cat).index(types[0]) + 1) % len(cat)]
+        for j in b['dict']:
+            dct[vnames[j]] = types[j]
+        if b['extra'] == 'last':
+            dct[extra_name] = list(cat)[(list(cat).index(types[0]) + 1) % len(cat)]
+        slots = list(vnames)                               # slice j belongs to slots[j]
+        what = f'Database.generate_draws({dct}, {vnames}, {r}) on {n} rows'
+        with owned(tape):
+            try:
+                t = d.generate_draws(dct, list(vnames), r)
+            except UnownedRandomness:
+                raise
+            except Exception as ex:  # noqa: BLE001
+                e = ex
+    else:
+        from biogeme.expressions import bioDraws
+        from biogeme.expressions.idmanager import IdManager
+        what = ('IdManager([' + ' + '.join(f'bioDraws({v!r}, {ty!r})' for v, ty in zip(vnames, types))
+                + f'], database of {n} rows, {r})')
+        slots = None
+        with owned(tape):
+            try:
+                f = bioDraws(vnames[0], types[0])
+                for v, ty in zip(vnames[1:], types[1:]):
+                    f = f + bioDraws(v, ty)
+                m = IdManager([f], d, r)
+                t = d.theDraws
+                slots = [None] * k
+                for v in vnames:
+                    slots[m.draws.indices[v]] = v
+            except UnownedRandomness:
+                raise
+            except Exception as ex:  # noqa: BLE001
+                e = ex
+        if e is None and (None in slots or sorted(slots) != sorted(vnames)):
+            rec.count('bind_idmanager_indices_unusable')    # the numbering of the variables is another property's subject
+            rec.case(key, (key, 'indices'), outcome=('bind', via, k, 'indices'))
+            return
+    if e is not None:
+        if b['extra'] and isinstance(e, BiogemeError):
+            # a dictionary with an entry that is not asked for: a refusal is not against the statement
+            rec.count('bind_superset_dictionary_refused')
+            rec.case(key, (key, 'refused'), outcome=('bind', via, k, 'refused'))
+            return
+        rec.case(key, (key, 'raised', type(e).__name__), outcome=('bind', via, k, 'raised'))
+        rec.violation(f'C11|history|db-path-several-variables|raises-{type(e).__name__},via={via}',
+                      f'{what}: raised {type(e).__name__}: {e}{before}', case,
+                      expected=f'the (N, R, {k}) table of the entries', observed=repr(e)[:300])
+        return
+    shape = tuple(getattr(t, 'shape', ()))
+    if shape != (n, r, k):
+        rec.case(key, (key, 'shape', shape), outcome=('bind', via, k, 'shape'))
+        rec.violation(f'C11|history|db-path-several-variables|shape,via={via}',
+                      f'{what}: table of shape {shape} instead of ({n}, {r}, {k}){before}', case,
+                      expected=[n, r, k], observed=list(shape))
+        return
+    slot_types = [type_of[v] for v in slots]
+    got = [flat(t[:, :, j]) for j in range(k)]
+
+    def singles(order):
+        """Every entry asked alone, the generators consuming one continuing tape in the given order of the slices."""
+        tp = Tape(tid, perm)
+        out = [None] * k
+        with owned(tp):
+            for j in order:
+                try:
+                    o = cat[slot_types[j]][0](n, r)
+                except UnownedRandomness:
+                    raise
+                except Exception:  # noqa: BLE001 - reported by the gen / history parts
+                    return None
+                if getattr(o, 'shape', None) != (n, r):
+                    return None
+                out[j] = flat(o)
+        return out
+
+    matched = None
+    refs = []
+    for order in itertools.permutations(range(k)):
+        s = singles(order)
+        if s is None:
+            rec.count('hist_multi_single_requests_failed')
+            rec.case(key, (key, 'single-failed'), outcome=('bind', via, k, 'single-failed'))
+            return
+        refs.append(s)
+        if all(all_close(got[j], s[j], 0.0) for j in range(k)):
+            matched = order
+            break
+    natural = matched == tuple(range(k))
+    rec.case(key, (key, digest(t)), outcome=('bind', via, k, matched is not None, natural))
+    if matched is not None:
+        if not natural:
+            rec.count('bind_generators_called_in_another_order')
+        return
+    # diagnosis: which slice is wrong (under the natural order), and does it hold what another variable asked for?
+    s0 = refs[0]
+    j = next(i for i in range(k) if not all_close(got[i], s0[i], 0.0))
+    other = None
+    for s in refs + [singles(o) or [] for o in list(itertools.permutations(range(k)))[len(refs):]]:
+        for i in range(len(s)):
+            if i != j and slot_types[i] != slot_types[j] and all_close(got[j], s[i], 0.0):
+                other = i
+                break
+        if other is not None:
+            break
+    if other is not None:
+        rec.violation(f'C11|history|db-path-variable-binding|slice-holds-the-type-of-another-variable,via={via}',
+                      f'{what}: the slice of variable {slots[j]!r} (index {j}), for which {slot_types[j]} '
+                      f'({cat[slot_types[j]][1]["desc"]!r}) was requested, holds the draws of {slot_types[other]}, the '
+                      f'type requested for variable {slots[other]!r}{before}', case,
+                      expected=s0[j][:5], observed=got[j][:5])
+    else:
+        rec.violation(f'C11|history|db-path-several-variables|type={slot_types[j]}',
+                      f'{what}: the slice of variable {slots[j]!r} (index {j}, type {slot_types[j]}) differs from the '
+                      f'entry asked alone under the same RNG answers, whatever the order in which the {k} generators '
+                      f'consumed them{before}', case, expected=s0[j][:5], observed=got[j][:5])
 
 
 def _hist_multi(rec, cat, a, b, n, r, task, hindex):
@@ -1204,6 +1429,19 @@ def hist_tasks(tier):
             t.append(dict(part='hist', kind='h3', shard=[i, k3],
                           combos=[[[2, 2], [2, 2]], [[2, 2], [3, 4]]],
                           plan=[['gen', ['none', 'flat']], ['db', ['none', 'zero']]]))
+    # bind: k variables of one request x order of the names x insertion order of the dictionary x entry point
+    ex = [None, 'first', 'last']
+    kb = 3 if quick else 6
+    for i in range(kb):
+        t.append(dict(part='hist', kind='bind', k=2, shard=[i, kb], sizes=hs, vias=['db', 'idm'], extras=ex))
+    for i in range(kb):
+        t.append(dict(part='hist', kind='bind', k=3, menu=BIND_MENU, shard=[i, kb],
+                      sizes=[[2, 2]] if quick else [[3, 4], [2, 6]], vias=['db', 'idm'], extras=ex))
+    if not quick:
+        k3 = 4 * HIST_SHARDS
+        for i in range(k3):
+            t.append(dict(part='hist', kind='bind', k=3, shard=[i, k3], sizes=[[2, 2]], vias=['db', 'idm'],
+                          extras=ex))
     for x in t:
         x['fresh'] = True
     return t
